@@ -180,6 +180,24 @@ def instances(tier, rng):
                             if var.get("mode") == "node" and rng.random() < 0.7:
                                 r[rng.choice(["starts", "ends"])] = [rng.choice(u["nodes"])]
                         insts.append(r)
+    # cyclic error models: a subset constraint that lists a ZERO-flow edge next to positive ones, at a fraction that is met
+    # without it (2 edges at 1/2, 4 at 3/4): using the zero edge only costs error, so it must stay optional
+    zc = [u for u in vlib.universe("cyc", 3, maxe=9, k=2, w=2, l=1, cap=6, zero=True) if 0 in u["ew"]]
+    for u in (C.spread(zc, 16) if quick else zc):
+        zero = [list(e) for e, w in zip(u["edges"], u["ew"]) if w == 0]
+        pos = [list(e) for e, w in zip(u["edges"], u["ew"]) if w > 0]
+        for z in zero[:2]:
+            lists = [([pos[0], z], [1, 2])]
+            if len(pos) >= 3:
+                lists.append((pos[:3] + [z], [3, 4]))
+            for cons, cov in lists:
+                for cls in ("kMinPathErrorCycles", "kLeastAbsErrorsCycles"):
+                    r = C.base(u, cls)
+                    r["wt"] = "int"
+                    r["k"] = max(1, len(u["proutes"]))
+                    r["cons"] = [cons]
+                    r["cov"] = cov
+                    insts.append(r)
     C.with_ids(insts)
     C.with_ids(groups, start=len(insts) + 1)
     return insts, groups
